@@ -294,6 +294,8 @@ std::string vf_run(const Case &c, vf::Ctx &ctx) {
         // complete NRPN sequence; the first three messages must neither drive nor bind anything
         int seq[4][2] = {{99, o.hi}, {98, o.lo}, {6, o.vhi}, {38, o.vlo}};
         for (int k = 0; k < 3; k++) {
+          // the other manager selects an NRPN of its own in the middle of this one's sequence
+          if (with_shadow && k == 2) { shadow.handleMidi(0, 99, (o.hi + 1) % 3); shadow.handleMidi(0, 98, (o.lo + 2) % 4); }
           mgr.handleMidi(0, seq[k][0], seq[k][1]);
           if (!out.empty()) return "incomplete NRPN sequence (message " + std::to_string(seq[k][0]) + ") produced a parameter message" + W;
           if (!(e = check_queue(W)).empty()) return "after the incomplete NRPN message " + std::to_string(seq[k][0]) + ": " + e;
